@@ -7,9 +7,10 @@ the harness depends on that worktree.  Results: seeded/RESULTS.md, seeded/result
 usage: seedmatrix.py [seed-id ...]        (default: all)"""
 import glob, json, os, re, shutil, subprocess, sys, time
 ROOT = os.path.dirname(os.path.dirname(os.path.abspath(__file__)))
-WT = "/var/tmp/blsful-verif-seedwt"
-HM = "/var/tmp/blsful-verif-hmut"
-SC = "/var/tmp/blsful-verif-scratch"
+TAG = os.environ.get("SEEDMATRIX_TAG", "")          # a second instance may run beside the first with its own scratch space
+WT = "/var/tmp/blsful-verif-seedwt" + TAG
+HM = "/var/tmp/blsful-verif-hmut" + TAG
+SC = "/var/tmp/blsful-verif-scratch" + TAG
 
 def sh(cmd, cwd=None, env=None, timeout=7200):
     p = subprocess.run(cmd, cwd=cwd, env=env, stdout=subprocess.PIPE, stderr=subprocess.STDOUT, text=True, timeout=timeout)
@@ -48,7 +49,7 @@ EXTRA = {"C04-2": ["C10"], "C04-3": ["C13"], "C04-1": ["C06"], "C05-1": ["C09", 
 
 def main():
     setup()
-    rp = os.path.join(ROOT, "seeded", "results.json")
+    rp = os.path.join(ROOT, "seeded", "results%s.json" % TAG)
     results = json.load(open(rp)) if os.path.exists(rp) else {}
     ids = sys.argv[1:] or sorted(os.path.basename(d) for d in glob.glob(os.path.join(ROOT, "seeded", "C*-*")))
     for sid in ids:
@@ -91,7 +92,8 @@ def main():
         own = {0: "exit 0 (missed)", 1: "VIOLATION", 2: "tool error"}.get(r["own"]["rc"], str(r["own"]["rc"]))
         lines.append("| %s | %s | %s | %s | %s |" % (sid, (m.get("needs_to_manifest") or "")[:140].replace("|", "/").replace("\n", " "), own, ", ".join(by) or "**none**", first.replace("|", "/")))
     lines += ["", "%d of %d seeded changes are reported by at least one check." % (caught, len(results))]
-    open(os.path.join(ROOT, "seeded", "RESULTS.md"), "w").write("\n".join(lines) + "\n")
+    if not TAG:
+        open(os.path.join(ROOT, "seeded", "RESULTS.md"), "w").write("\n".join(lines) + "\n")
     print("caught", caught, "of", len(results))
 
 if __name__ == "__main__":
